@@ -40,61 +40,130 @@
 /* VERIF-UNIT
 {
  "name": "raw_write_blk_bounce_a8",
- "props": ["C17"],
+ "props": [
+  "C17"
+ ],
  "level": "U",
  "tier": "thorough",
  "harness": "h_raw_write",
- "enforce": ["raw_write_blk"],
- "replace": ["memcpy", "memset"],
+ "enforce": [
+  "raw_write_blk"
+ ],
+ "replace": [
+  "memcpy",
+  "memset"
+ ],
  "loop_contracts": true,
  "unwind": 24,
  "unwind_reason": "the bounce loop is closed by its in-place loop contract; the bound only serves DFCC library loops",
- "defines": ["CFG_BS=16", "CFG_ALIGN=8", "CFG_FORCE=0", "RAW_NO_CALL_EVENTS", "CFG_NO_PTHREAD"],
- "functions": ["lib/ext2fs/unix_io.c:raw_write_blk"],
- "assumes": ["no write_error handler installed", "block < 2^46, 0 <= data->offset < 2^50, request below 2 GiB", "WIP ONLY BECAUSE IT NEEDS hooks-pending/uio.diff (loop-contract anchors); green with it, thorough tier", "failing system calls set errno to a non-zero value (POSIX)", "read() on the device comes back short only at end of device (the code zero-fills the rest of the bounce buffer on that assumption)", "configuration bound: block_size 16, alignment 8 (align_size 16)"],
+ "defines": [
+  "CFG_BS=16",
+  "CFG_ALIGN=8",
+  "CFG_FORCE=0",
+  "RAW_NO_CALL_EVENTS",
+  "CFG_NO_PTHREAD"
+ ],
+ "functions": [
+  "lib/ext2fs/unix_io.c:raw_write_blk"
+ ],
+ "assumes": [
+  "no write_error handler installed",
+  "block < 2^46, 0 <= data->offset < 2^50, request below 2 GiB",
+  "WIP ONLY BECAUSE IT NEEDS hooks-pending/uio.diff (loop-contract anchors); green with it, thorough tier",
+  "failing system calls set errno to a non-zero value (POSIX)",
+  "read() on the device comes back short only at end of device (the code zero-fills the rest of the bounce buffer on that assumption)",
+  "configuration bound: block_size 16, alignment 8 (align_size 16)"
+ ],
  "backend": "cadical",
  "timeout": 300,
- "native": false
+ "native": false,
+ "no_cross_check": true
 }
 */
 /* VERIF-UNIT
 {
  "name": "raw_write_blk_bounce_a64",
- "props": ["C17"],
+ "props": [
+  "C17"
+ ],
  "level": "U",
  "tier": "thorough",
  "harness": "h_raw_write",
- "enforce": ["raw_write_blk"],
- "replace": ["memcpy", "memset"],
+ "enforce": [
+  "raw_write_blk"
+ ],
+ "replace": [
+  "memcpy",
+  "memset"
+ ],
  "loop_contracts": true,
  "unwind": 24,
  "unwind_reason": "the bounce loop is closed by its in-place loop contract; the bound only serves DFCC library loops",
- "defines": ["CFG_BS=16", "CFG_ALIGN=64", "CFG_FORCE=0", "RAW_NO_CALL_EVENTS", "CFG_NO_PTHREAD"],
- "functions": ["lib/ext2fs/unix_io.c:raw_write_blk"],
- "assumes": ["no write_error handler installed", "block < 2^46, 0 <= data->offset < 2^50, request below 2 GiB", "WIP ONLY BECAUSE IT NEEDS hooks-pending/uio.diff (loop-contract anchors); green with it, thorough tier", "failing system calls set errno to a non-zero value (POSIX)", "read() on the device comes back short only at end of device", "configuration bound: block_size 16, alignment 64 (align_size 64: four blocks per aligned unit)"],
+ "defines": [
+  "CFG_BS=16",
+  "CFG_ALIGN=64",
+  "CFG_FORCE=0",
+  "RAW_NO_CALL_EVENTS",
+  "CFG_NO_PTHREAD"
+ ],
+ "functions": [
+  "lib/ext2fs/unix_io.c:raw_write_blk"
+ ],
+ "assumes": [
+  "no write_error handler installed",
+  "block < 2^46, 0 <= data->offset < 2^50, request below 2 GiB",
+  "WIP ONLY BECAUSE IT NEEDS hooks-pending/uio.diff (loop-contract anchors); green with it, thorough tier",
+  "failing system calls set errno to a non-zero value (POSIX)",
+  "read() on the device comes back short only at end of device",
+  "configuration bound: block_size 16, alignment 64 (align_size 64: four blocks per aligned unit)"
+ ],
  "backend": "cadical",
  "timeout": 300,
- "native": false
+ "native": false,
+ "no_cross_check": true
 }
 */
 /* VERIF-UNIT
 {
  "name": "raw_write_blk_bounce_force",
- "props": ["C17"],
+ "props": [
+  "C17"
+ ],
  "level": "U",
  "tier": "thorough",
  "harness": "h_raw_write",
- "enforce": ["raw_write_blk"],
- "replace": ["memcpy", "memset"],
+ "enforce": [
+  "raw_write_blk"
+ ],
+ "replace": [
+  "memcpy",
+  "memset"
+ ],
  "loop_contracts": true,
  "unwind": 24,
  "unwind_reason": "the bounce loop is closed by its in-place loop contract; the bound only serves DFCC library loops",
- "defines": ["CFG_BS=16", "CFG_ALIGN=0", "CFG_FORCE=1", "RAW_NO_CALL_EVENTS", "CFG_NO_PTHREAD"],
- "functions": ["lib/ext2fs/unix_io.c:raw_write_blk"],
- "assumes": ["no write_error handler installed", "block < 2^46, 0 <= data->offset < 2^50, request below 2 GiB", "WIP ONLY BECAUSE IT NEEDS hooks-pending/uio.diff (loop-contract anchors); green with it, thorough tier", "failing system calls set errno to a non-zero value (POSIX)", "read() on the device comes back short only at end of device", "configuration bound: block_size 16, IO_FLAG_FORCE_BOUNCE without alignment (align becomes 1, align_size 16)"],
+ "defines": [
+  "CFG_BS=16",
+  "CFG_ALIGN=0",
+  "CFG_FORCE=1",
+  "RAW_NO_CALL_EVENTS",
+  "CFG_NO_PTHREAD"
+ ],
+ "functions": [
+  "lib/ext2fs/unix_io.c:raw_write_blk"
+ ],
+ "assumes": [
+  "no write_error handler installed",
+  "block < 2^46, 0 <= data->offset < 2^50, request below 2 GiB",
+  "WIP ONLY BECAUSE IT NEEDS hooks-pending/uio.diff (loop-contract anchors); green with it, thorough tier",
+  "failing system calls set errno to a non-zero value (POSIX)",
+  "read() on the device comes back short only at end of device",
+  "configuration bound: block_size 16, IO_FLAG_FORCE_BOUNCE without alignment (align becomes 1, align_size 16)"
+ ],
  "backend": "cadical",
  "timeout": 300,
- "native": false
+ "native": false,
+ "no_cross_check": true
 }
 */
 /* VERIF-UNIT
@@ -119,41 +188,89 @@
 /* VERIF-UNIT
 {
  "name": "raw_read_blk_bounce_a8",
- "props": ["C17"],
+ "props": [
+  "C17"
+ ],
  "level": "U",
  "tier": "thorough",
  "harness": "h_raw_read",
- "enforce": ["raw_read_blk"],
- "replace": ["memcpy", "memset"],
+ "enforce": [
+  "raw_read_blk"
+ ],
+ "replace": [
+  "memcpy",
+  "memset"
+ ],
  "loop_contracts": true,
  "unwind": 24,
  "unwind_reason": "the bounce loop is closed by its in-place loop contract; the bound only serves DFCC library loops",
- "defines": ["CFG_BS=16", "CFG_ALIGN=8", "CFG_FORCE=0", "RAW_NO_CALL_EVENTS", "CFG_NO_PTHREAD"],
- "functions": ["lib/ext2fs/unix_io.c:raw_read_blk"],
- "assumes": ["WIP ONLY BECAUSE IT NEEDS hooks-pending/uio.diff (loop-contract anchors); green with it, thorough tier", "no read_error handler installed", "block < 2^46, 0 <= data->offset < 2^50", "failing system calls set errno to a non-zero value (POSIX)", "read() comes back short only at end of device", "configuration bound: block_size 16, alignment 8; requests of at most 4 KiB", "memcpy/memset replaced by contracts that are faithful at the tracked addresses (stated on the libc functions, not enforced)"],
+ "defines": [
+  "CFG_BS=16",
+  "CFG_ALIGN=8",
+  "CFG_FORCE=0",
+  "RAW_NO_CALL_EVENTS",
+  "CFG_NO_PTHREAD"
+ ],
+ "functions": [
+  "lib/ext2fs/unix_io.c:raw_read_blk"
+ ],
+ "assumes": [
+  "WIP ONLY BECAUSE IT NEEDS hooks-pending/uio.diff (loop-contract anchors); green with it, thorough tier",
+  "no read_error handler installed",
+  "block < 2^46, 0 <= data->offset < 2^50",
+  "failing system calls set errno to a non-zero value (POSIX)",
+  "read() comes back short only at end of device",
+  "configuration bound: block_size 16, alignment 8; requests of at most 4 KiB",
+  "memcpy/memset replaced by contracts that are faithful at the tracked addresses (stated on the libc functions, not enforced)"
+ ],
  "backend": "cadical",
  "timeout": 300,
- "native": false
+ "native": false,
+ "no_cross_check": true
 }
 */
 /* VERIF-UNIT
 {
  "name": "raw_read_blk_bounce_a64",
- "props": ["C17"],
+ "props": [
+  "C17"
+ ],
  "level": "U",
  "tier": "thorough",
  "harness": "h_raw_read",
- "enforce": ["raw_read_blk"],
- "replace": ["memcpy", "memset"],
+ "enforce": [
+  "raw_read_blk"
+ ],
+ "replace": [
+  "memcpy",
+  "memset"
+ ],
  "loop_contracts": true,
  "unwind": 24,
  "unwind_reason": "the bounce loop is closed by its in-place loop contract; the bound only serves DFCC library loops",
- "defines": ["CFG_BS=16", "CFG_ALIGN=64", "CFG_FORCE=0", "RAW_NO_CALL_EVENTS", "CFG_NO_PTHREAD"],
- "functions": ["lib/ext2fs/unix_io.c:raw_read_blk"],
- "assumes": ["WIP ONLY BECAUSE IT NEEDS hooks-pending/uio.diff (loop-contract anchors); green with it, thorough tier", "no read_error handler installed", "block < 2^46, 0 <= data->offset < 2^50", "failing system calls set errno to a non-zero value (POSIX)", "read() comes back short only at end of device", "configuration bound: block_size 16, alignment 64; requests of at most 4 KiB", "memcpy/memset replaced by contracts that are faithful at the tracked addresses (stated on the libc functions, not enforced)"],
+ "defines": [
+  "CFG_BS=16",
+  "CFG_ALIGN=64",
+  "CFG_FORCE=0",
+  "RAW_NO_CALL_EVENTS",
+  "CFG_NO_PTHREAD"
+ ],
+ "functions": [
+  "lib/ext2fs/unix_io.c:raw_read_blk"
+ ],
+ "assumes": [
+  "WIP ONLY BECAUSE IT NEEDS hooks-pending/uio.diff (loop-contract anchors); green with it, thorough tier",
+  "no read_error handler installed",
+  "block < 2^46, 0 <= data->offset < 2^50",
+  "failing system calls set errno to a non-zero value (POSIX)",
+  "read() comes back short only at end of device",
+  "configuration bound: block_size 16, alignment 64; requests of at most 4 KiB",
+  "memcpy/memset replaced by contracts that are faithful at the tracked addresses (stated on the libc functions, not enforced)"
+ ],
  "backend": "cadical",
  "timeout": 300,
- "native": false
+ "native": false,
+ "no_cross_check": true
 }
 */
 
